@@ -10,7 +10,7 @@ use proptest::prelude::*;
 fn c05_params(tier: Tier) -> (usize, usize, usize, usize, u32) {
     // (ops dense bound, structure sweep bound, scratch dense bound, structured nmax, structured cases)
     match tier {
-        Tier::Quick => (4096, 1 << 18, 4096, 1 << 17, 640),
+        Tier::Quick => (8192, 1 << 20, 16384, 1 << 18, 1280),
         Tier::Thorough => (32768, 1 << 22, 65536, 1 << 21, 3200),
     }
 }
@@ -21,6 +21,8 @@ pub fn c05_meta(tier: Tier) -> Meta {
             "Work clause: FftPlanner over an operation-counting element type (f64 payload, thread-local counters; both SIMD planners must decline it) for every n in 2..={ops} x both directions x process/in-place/out-of-place/immutable, one chunk: additions+subtractions+multiplications <= 64*n*log2(n), and the counts on three inputs (zeros, random, huge/tiny mix) must be IDENTICAL (input independence); plus {cases} proptest-drawn structured lengths up to {nmax}. \
              Structural clause: the plan text (plan-report hook) of Auto/Scalar/Sse/Avx x f32/f64 for every n in 2..={st}, parsed independently: no naive `Dft(k)` node with k > 32. \
              Scratch clause: all three advertised scratch lengths <= 12n+64 for every n in 0..={sc} x 4 planners x f32/f64 x 2 directions (transform constructed) and the structured large lengths. \
+             The structural clause is additionally decided on what is BUILT: a cfg-guarded construction hook records every naive `Dft` the library constructs, and building the plan of every n in the scratch-clause range (and every history below) must not construct one longer than 32, whatever the plan text says. \
+             The work clause is also checked on planners WITH history: one operation-counting planner is fed every n in 2..=3072 (quick) / 8192 (thorough) ascending, descending, the prime neighbourhoods ((q-1)/2, q-1, q, 2q, 2q+1), and 16/48 seed-driven shuffled subsequences with mixed directions; every returned transform is run and counted against 64*n*log2(n). \
              The scratch clause is also checked on planners WITH history: for every prime p up to 1024 (quick) / 8192 (thorough) and every 2^a*3^b length M in [2p,16p], the history [M, p, M', p'] (' = other direction) on the Scalar/Sse/Avx planners. \
              Non-trivial: n >= 2; distinct = (kind, planner/type, n or window or history, entry).",
         ),
@@ -103,6 +105,34 @@ pub fn c05_worker(ctx: &mut Ctx) {
             }
         }
     }
+    // work clause on planners WITH history: long request sequences on one operation-counting planner (ascending, descending,
+    // prime neighbourhoods q-1, q, 2q, 2q+1, and seed-driven shuffles), every returned transform measured
+    {
+        let hi = ctx.tier.pick(3072i64, 8192);
+        for planner in [Planner::Auto, Planner::Scalar] {
+            for dir in DIRS {
+                for mode in 0..3i64 {
+                    if ctx.mine() {
+                        let top = if mode == 2 { hi * 2 / 3 } else { hi };
+                        ctx.exec(&Case::new("C05", "histops", planner, Ty::F64, dir, top as usize).with_entry(ENTRIES[(mode as usize + dir as usize) % 4]).with_p(vec![mode, top, 2]));
+                    }
+                }
+            }
+        }
+        for s in 0..ctx.tier.pick(16u64, 48) {
+            if ctx.mine() {
+                let top = [hi, hi / 4, 2 * hi][(s % 3) as usize];
+                ctx.exec(
+                    &Case::new("C05", "histops", [Planner::Auto, Planner::Scalar][(s % 2) as usize], Ty::F64, DIRS[((s / 2) % 2) as usize], top as usize)
+                        .with_input(InputSpec::fam("uniform", ctx.seed ^ (s * 7919)))
+                        .with_p(vec![3, top, 2 + (s as i64 % 5) * 100]),
+                );
+            }
+        }
+        if ctx.done() {
+            return;
+        }
+    }
     let fams = Families::new(nmax);
     let nf = fams.count();
     let f2 = Families::new(nmax);
@@ -123,7 +153,7 @@ pub fn c05_worker(ctx: &mut Ctx) {
 fn c14_params(tier: Tier) -> (usize, usize, usize, u32) {
     // (exact dense bound, alt-type dense bound, structured nmax for exact, structured cases)
     match tier {
-        Tier::Quick => (1024, 384, 8192, 480),
+        Tier::Quick => (1536, 768, 12000, 960),
         Tier::Thorough => (4096, 2048, 20000, 2400),
     }
 }
@@ -177,6 +207,23 @@ pub fn c14_worker(ctx: &mut Ctx) {
         }
         if ctx.done() {
             return;
+        }
+    }
+    // landmark lengths beyond the dense range (radix-4 digit-reversal depth, long radix chains, big Rader/Bluestein primes)
+    for (i, &n) in [1usize << 11, 1 << 12, 1 << 13, 1 << 14, 1 << 15, 3 << 10, 3 << 11, 3 << 12, 3 << 13, 5 << 11, 5 << 12, 3083, 4099, 12289, 6561, 15625, 16807, 14641, 8191, 10007]
+        .iter()
+        .enumerate()
+    {
+        if !ctx.mine() {
+            continue;
+        }
+        for dir in DIRS {
+            ctx.exec(
+                &Case::new("C14", "exact", [Planner::Auto, Planner::Scalar][i % 2], Ty::F64, dir, n)
+                    .with_entry(ENTRIES[(i + dir as usize) % 4])
+                    .with_input(InputSpec::fam("random-field", n as u64))
+                    .with_p(vec![1]),
+            );
         }
     }
     for n in (1..=alt).rev() {
